@@ -22,6 +22,41 @@ M('c10-alphabets-swapped', 'C10', 'R1', U,
 M('c10-char-encoder-gets-percent-set', 'C10', 'R1', U,
   "encode_char = _create_char_encoder(allowed_chars)", "encode_char = _create_char_encoder(allowed_chars_plus_percent)")
 
+# R1 verbatim parts: what reaches the output without passing through the char table
+# seeded change s4-c10-1: "strip only once" with a per-configuration alphabet (which contains '%' for the
+# check-escaped encoders) + "only the head goes through the encoder": a '%' after the last character that
+# needs escaping is appended raw (encode_check_escaped('a b%') == 'a%20b%')
+M2('c10-strip-once-tail-keeps-percent', 'C10', 'R1', [
+    {'file': U, 'old': "    encode_char = _create_char_encoder(allowed_chars)\n",
+     'new': "    encode_char = _create_char_encoder(allowed_chars)\n"
+            "    safe_chars = allowed_chars_plus_percent if check_is_escaped else allowed_chars\n"},
+    {'file': U, 'old': "        if not uri.rstrip(allowed_chars):\n            return uri\n\n"
+                       "        if check_is_escaped and not uri.rstrip(allowed_chars_plus_percent):\n",
+     'new': "        head = uri.rstrip(safe_chars)\n\n        if not head:\n"
+            "            if not check_is_escaped or '%' not in uri:\n                return uri\n\n"},
+    {'file': U, 'old': "            # before passing it in here.\n", 'new': "            # before passing it in here.\n            head = uri\n"},
+    {'file': U, 'old': "        encoded_uri = uri.encode()\n", 'new': "        encoded_uri = head.encode()\n"},
+    {'file': U, 'old': "        return ''.join(map(encode_char, encoded_uri))\n",
+     'new': "        return ''.join(map(encode_char, encoded_uri)) + uri[len(head) :]\n"}],
+   also=('C15',))
+# the tail optimisation alone, but stripped with the "plus percent" alphabet: all four encoders keep a trailing '%'
+M2('c10-tail-stripped-with-percent-set', 'C10', 'R1', [
+    {'file': U, 'old': "        encoded_uri = uri.encode()\n",
+     'new': "        head = uri.rstrip(allowed_chars_plus_percent)\n        encoded_uri = head.encode()\n"},
+    {'file': U, 'old': "        return ''.join(map(encode_char, encoded_uri))\n",
+     'new': "        return ''.join(map(encode_char, encoded_uri)) + uri[len(head) :]\n"}],
+   also=('C15',))
+# ... stripped with the whole-URI alphabet whatever the configuration: encode_value('a b/c') == 'a%20b/c'
+M2('c10-value-tail-stripped-with-uri-alphabet', 'C10', 'R1', [
+    {'file': U, 'old': "        encoded_uri = uri.encode()\n",
+     'new': "        head = uri.rstrip(_ALL_ALLOWED)\n        encoded_uri = head.encode()\n"},
+    {'file': U, 'old': "        return ''.join(map(encode_char, encoded_uri))\n",
+     'new': "        tail = uri[len(head) :]\n        return ''.join(map(encode_char, encoded_uri)) + tail\n"}],
+   also=('C15',))
+# ... and the tail forgotten: encode('a b-c') == 'a%20b'
+M('c10-strip-once-drops-tail', 'C10', 'R1', U,
+  "        encoded_uri = uri.encode()\n", "        head = uri.rstrip(allowed_chars)\n        encoded_uri = head.encode()\n", also=('C15',))
+
 # ----------------------------------------------------------------------- R2
 M('c10-escape-lowercase', 'C10', 'R2', U, "'%{0:02X}'.format(code_point)", "'%{0:02x}'.format(code_point)")
 M('c10-escape-unpadded', 'C10', 'R2', U, "'%{0:02X}'.format(code_point)", "'%{0:X}'.format(code_point)")
@@ -181,3 +216,16 @@ M('c10-parse-host-port-without-separator', 'C10', 'R6', U,
             return (host[1:-1], default_port)
 """, """        return (host[1:pos], int(host[pos + 2 :]))
 """, also=('C09',))
+# seeded change s4-c10-3: "no colon, no port" shortcut placed before the bracket branch: '[v1.fe80]' keeps its brackets
+M2('c10-parse-host-colonless-shortcut-before-brackets', 'C10', 'R6', [
+    {'file': U, 'old': "    if host.startswith('['):\n",
+     'new': "    if ':' not in host:\n        return (host, default_port)\n\n    if host.startswith('['):\n"},
+    {'file': U, 'old': "    pos = host.rfind(':')\n    if (pos == -1) or (pos != host.find(':')):\n",
+     'new': "    if host.rfind(':') != host.find(':'):\n"}])
+# the same shortcut spelled with find()
+M('c10-parse-host-find-shortcut-before-brackets', 'C10', 'R6', U,
+  "    if host.startswith('['):\n",
+  "    if host.find(':') == -1:\n        return (host, default_port)\n\n    if host.startswith('['):\n")
+# bracket form detected by the closing bracket: 'example]' loses its first character, '[::1' keeps its bracket
+M('c10-parse-host-bracket-by-closing-bracket', 'C10', 'R6', U,
+  "    if host.startswith('['):\n", "    if ']' in host:\n")
